@@ -542,7 +542,7 @@ def c16_copies(clsname, text, validate):
         if type(y) is not type(x) or y != x or str(y) != str(x):
             return name
         for attr in ("country_code", "bank_code", "branch_code") + (("account_code",) if clsname != "BIC" else ()):
-            if getattr(y, attr) != getattr(x, attr):
+            if _outcome(lambda: getattr(y, attr)) != _outcome(lambda: getattr(x, attr)):
                 return name + " " + attr
         if clsname == "IBAN" and (type(y.bban) is not type(x.bban) or y.bban != x.bban or y.bban.country_code != x.bban.country_code):
             return name + " bban"
@@ -677,3 +677,65 @@ def c17_bank(cc, code, bic):
     except Exception as e:  # noqa: BLE001
         return "iban " + type(e).__name__
     return "ok" if x.bank is not None and x.bank["bank_code"] == code else "lookup"
+
+
+def c15_havoc(m, acct, names, h0, h1):
+    """real method object: same account under two different leftovers in the scratch attributes"""
+    from schwifty.checksum import algorithms
+
+    algo = algorithms[f"DE:{m}"]
+    outs = []
+    for hs in (h0, h1):
+        for n, v in zip(names, hs):
+            setattr(algo, n, v)
+        try:
+            outs.append(("ret", bool(algo.validate([acct], ""))))
+        except Exception as e:  # noqa: BLE001
+            outs.append(("exc", type(e).__name__))
+    return "ok" if outs[0] == outs[1] else "differs"
+
+
+def _observe(text):
+    import schwifty
+
+    try:
+        x = schwifty.IBAN(text)
+    except Exception as e:  # noqa: BLE001
+        return [("exc", type(e).__name__)]
+    return [("ret", str(x))] + [_outcome(lambda a=a: getattr(x, a)) for a in ("bank_code", "branch_code", "account_code", "national_checksum_digits")]
+
+
+def c15_pair(a, b):
+    """fresh evaluation of observe(b) happens in a separate interpreter; here: observe(a) then observe(b)"""
+    import json
+    import subprocess
+    import sys
+
+    code = "import sys, json; sys.path.insert(0, '/verif'); from spec.replay_preds import _observe; print(json.dumps(_observe(sys.argv[1]), default=str))"
+    fresh = json.loads(subprocess.run([sys.executable, "-c", code, b], capture_output=True, text=True, env=__import__("os").environ).stdout.strip().splitlines()[-1])
+    _observe(a)
+    second = json.loads(json.dumps(_observe(b), default=str))
+    import copy as _c
+    from schwifty import registry
+
+    return "ok" if fresh == second else "differs"
+
+
+def c15_bic(a, b):
+    import json
+    import subprocess
+    import sys
+
+    import schwifty
+
+    def obs(t):
+        try:
+            x = schwifty.BIC(t)
+        except Exception as e:  # noqa: BLE001
+            return [["exc", type(e).__name__]]
+        return [["ret", str(x)], x.branch_code, x.country_code]
+
+    code = "import sys, json; import schwifty\ntry:\n x=schwifty.BIC(sys.argv[1]); print(json.dumps([['ret',str(x)],x.branch_code,x.country_code]))\nexcept Exception as e: print(json.dumps([['exc',type(e).__name__]]))"
+    fresh = json.loads(subprocess.run([sys.executable, "-c", code, b], capture_output=True, text=True, env=__import__("os").environ).stdout.strip().splitlines()[-1])
+    obs(a)
+    return "ok" if fresh == obs(b) else "differs"
